@@ -341,12 +341,28 @@ func checkC17(c *Ctx, r *Report) {
 func (c *Ctx) checkRecover(r *Report, parse *ssa.Function) {
 	key := "C17.recover:" + fname(parse)
 	var deferred *ssa.Function
+	callsRecover := func(f *ssa.Function) bool {
+		found := false
+		eachInstr(f, func(in ssa.Instruction) {
+			if call, ok := in.(*ssa.Call); ok {
+				if b, ok := call.Call.Value.(*ssa.Builtin); ok && b.Name() == "recover" {
+					found = true
+				}
+			}
+		})
+		return found
+	}
 	eachInstr(parse, func(in ssa.Instruction) {
 		if d, ok := in.(*ssa.Defer); ok {
+			var cand *ssa.Function
 			if mc, ok := d.Call.Value.(*ssa.MakeClosure); ok {
-				deferred = mc.Fn.(*ssa.Function)
+				cand = mc.Fn.(*ssa.Function)
 			} else if sc := d.Call.StaticCallee(); sc != nil && sc.Pkg == parse.Pkg && len(sc.Blocks) > 0 {
-				deferred = sc // a named function deferred directly: recover() works in it
+				cand = sc // a named function deferred directly: recover() works in it
+			}
+			// several defers (a pooled object handed back, …): the one that recovers is the handler
+			if cand != nil && (deferred == nil || (!callsRecover(deferred) && callsRecover(cand))) {
+				deferred = cand
 			}
 		}
 	})
@@ -429,8 +445,16 @@ func (c *Ctx) checkRecover(r *Report, parse *ssa.Function) {
 	early := true
 	var deferInstr ssa.Instruction
 	eachInstr(parse, func(in ssa.Instruction) {
-		if _, ok := in.(*ssa.Defer); ok {
-			deferInstr = in
+		if d, ok := in.(*ssa.Defer); ok {
+			var callee *ssa.Function
+			if mc, ok := d.Call.Value.(*ssa.MakeClosure); ok {
+				callee = mc.Fn.(*ssa.Function)
+			} else {
+				callee = d.Call.StaticCallee()
+			}
+			if callee == deferred || deferInstr == nil {
+				deferInstr = in
+			}
 		}
 	})
 	eachInstr(parse, func(in ssa.Instruction) {
